@@ -633,6 +633,7 @@ async def cell_C_overlap(acc, clock, cell, cid):
     if second == "eof":
         ep.vf_reader.feed_eof()
     elif second == "reset":
+        ep.vf_writer.close_error = ConnectionResetError("reset")
         ep.vf_reader.set_exception(ConnectionResetError("reset"))
     elif second == "logout-in":
         ep.vf_reader.feed(mkframe("5", E_, "PEER", "ME", [(58, "bye")]))
@@ -766,6 +767,7 @@ async def cell_C(acc, clock, cell, cid):
         elif p == "eof":
             ep.vf_reader.feed_eof()
         elif p == "reset":
+            ep.vf_writer.close_error = ConnectionResetError("reset by peer")      # connection_lost(exc): wait_closed() raises it too
             ep.vf_reader.set_exception(ConnectionResetError("reset by peer"))
         elif p == "oserror":
             ep.vf_reader.set_exception(BrokenPipeError("broken pipe"))
